@@ -4,14 +4,21 @@
 import sys, os, re, json, subprocess, time
 sys.path.insert(0, '/verif/mutants')
 import corpus
-ids = sys.argv[1:] or ['C%02d' % i for i in range(1, 21)]
+# usage: matrix.py [C01 C02 ...]            re-run whole rows groups
+#        matrix.py --add C02 m02f n02 ...   run only the named changes for one check and merge them
+add = None
+if len(sys.argv) > 2 and sys.argv[1] == '--add':
+    add = sys.argv[3:]
+    ids = [sys.argv[2]]
+else:
+    ids = sys.argv[1:] or ['C%02d' % i for i in range(1, 21)]
 out_json = '/verif/detection_matrix.json'
 res = json.load(open(out_json)) if os.path.exists(out_json) else {}
 notes = {m['id']: m['note'] for m in corpus.M}
 for cid in ids:
     t0 = time.time()
-    p = subprocess.run(['python3', '/verif/tools/mut.py', cid, 'all', 'seeds', 'reverts'], capture_output=True, text=True)
-    rows = {}
+    p = subprocess.run(['python3', '/verif/tools/mut.py', cid] + (add or ['all', 'seeds', 'reverts']), capture_output=True, text=True)
+    rows = dict(res.get(cid, {}).get('rows', {})) if add else {}
     for line in p.stdout.splitlines():
         m = re.match(r'(\S+)\s+(pass|VIOLATION|inconclusive/broken|\d+)\s+(\[.*?\])', line)
         if m:
